@@ -38,6 +38,10 @@ impl<'s> Attribute<'s> for PasswordAlgorithms<'s> {
             let params = &value[..len];
 
             algorithms.push((alg, params));
+
+            // continue behind the parameters and their padding
+            let padded_len = len + padding_usize(len);
+            value = &value[padded_len.min(value.len())..];
         }
 
         Ok(Self { algorithms })
